@@ -8,7 +8,7 @@
    candidate alpha-equivalent to the input (C03_reductions_alpha_partial; `leaves` as in C01).
    The filter-specific rewrite of optimize_alpha (rows) and the container are decided per run by correspondence
    and the specification oracle (alpha-equivalence of decoded input and output). *)
-From OxiVerif Require Import Base.Common Spec.Adam7 Spec.Sem Model.Types Model.Options Model.Color Model.Palette Model.Reductions
+From OxiVerif Require Import Base.Common Spec.Adam7 Spec.Sem Model.Types Model.Options Model.Color Model.Palette Model.Reductions Model.Evaluate Model.Optimize
   Proofs.Bridge Proofs.PixelProofs Proofs.ImageLift Proofs.LiftColor Proofs.LiftAlpha Proofs.PipelineLossless.
 
 Theorem C03_partial_transparent_rgba : forall d r g b r' g' b',
@@ -90,3 +90,9 @@ Theorem C03_reductions_alpha_partial : forall (L : leaves) e o img pic baseline 
   ameans pic baseline /\ Forall (cand_ameans pic) evs.
 Proof. exact perform_reductions_alpha_partial. Qed.
 Print Assumptions C03_reductions_alpha_partial.
+
+Theorem C03_emitted_alpha_partial : forall (L : leaves) e o img max_size c pic,
+  scale_16 o = false -> ameans pic img ->
+  optimize_raw e o img max_size = Ok (Some c) -> ameans pic (c_image c).
+Proof. exact optimize_raw_alpha_partial. Qed.
+Print Assumptions C03_emitted_alpha_partial.
